@@ -50,6 +50,8 @@ def main():
         sh("git checkout -q -- . && git checkout -q --detach main", cwd=wt)
         for cand in sorted((wt / "_out").glob("*")):
             k = cand.name
+            if k.isdigit():
+                k = str(int(k) + int(os.environ.get("SEED_OFFSET", "0")))
             patch = cand / "patch.diff"
             demo = cand / "demo.py"
             if not demo.exists():
